@@ -67,7 +67,7 @@ Seen == {Key(TLog[j]) : j \in 1..Len(TLog)}
 Missing == Plan \ Seen
 
 Inv == IF i <= Len(TLog)
-       THEN LET v == Verdict(TLog[i]) IN v = "ok" \/ PrintT(<<"BAD", i, v>>)
+       THEN LET v == Verdict(TLog[i]) IN v = "ok" \/ PrintT(<<"BAD", i, v, Expected(TLog[i])>>)
        ELSE Missing = {} \/ PrintT(<<"PLAN", Cardinality(Missing), CHOOSE m \in Missing : TRUE>>)
 Post == TLCGet("stats").diameter = Len(TLog) + 1
 =============================================================================
